@@ -262,7 +262,13 @@ def specProgram (prop : String) (c : Cfg) (ws : List Watcher) (_init : List Int)
                 | _ => none
           | _ => none
         else none
-      match e1.orElse (fun _ => e2) |>.orElse (fun _ => e3) |>.orElse (fun _ => e4) with
+      -- C04/C05: an Event parameter only holds its transient True while a statement is running
+      let e5 : Option String :=
+        (List.range c.nparams).findSome? fun p =>
+          if c.isEvent p && st.vals.getD p 0 != 0 then
+            some s!"Event parameter p{p} still reads True after a top-level statement"
+          else none
+      match e1.orElse (fun _ => e2) |>.orElse (fun _ => e3) |>.orElse (fun _ => e4) |>.orElse (fun _ => e5) with
       | some s => some s!"step {n}: {s}"
       | none => go (n + 1) rest
   go 0 steps
